@@ -87,13 +87,26 @@ Proof.
   intros H; revert j; induction H; intros [|j]; simpl; try lra. apply IHForall.
 Qed.
 
+Lemma div_unit a f : 0 < f -> 0 < a <= f -> 0 < a / f <= 1.
+Proof.
+  intros Hf Ha. pose proof (Rinv_0_lt_compat f Hf) as Hi. unfold Rdiv. split.
+  - apply Rmult_lt_0_compat; lra.
+  - replace 1 with (f * / f) by (field; lra). apply Rmult_le_compat_r; lra.
+Qed.
+
+Lemma clamp1_R cl q : q <= 1 -> clamp1 NumR cl q = q.
+Proof.
+  intros H. destruct cl; [|reflexivity]. unfold clamp1, nmin. simpl.
+  replace (Rlt_b 1 q) with false by (symmetry; apply Rlt_b_false; lra). reflexivity.
+Qed.
+
 (* ---------- the search loop ---------- *)
-Lemma T2t_loop_hit : forall fs j k T0 T, nonneg (vals fs) -> (j < length fs)%nat ->
+Lemma T2t_loop_hit : forall cl fs j k T0 T, nonneg (vals fs) -> (j < length fs)%nat ->
   T0 + Rsum (firstn j (vals fs)) < T <= T0 + Rsum (firstn (S j) (vals fs)) ->
-  T2t_loop NumR fs k T0 T
+  T2t_loop NumR cl fs k T0 T
   = Found (k + Z.of_nat j)%Z ((T - (T0 + Rsum (firstn j (vals fs)))) / nth j (vals fs) 0).
 Proof.
-  induction fs as [|[ex l] r IH]; intros j k T0 T Hnn Hj HT.
+  intros cl. induction fs as [|[ex l] r IH]; intros j k T0 T Hnn Hj HT.
   - simpl in Hj; lia.
   - unfold vals in Hnn; cbn [map snd] in Hnn. inversion Hnn as [|? ? Hl Hr]; subst.
     fold (vals r) in Hr.
@@ -103,7 +116,8 @@ Proof.
       simpl (sub NumR _ _). simpl (div NumR _ _). simpl (zero NumR).
       replace (Rle_b T (T0 + l)) with true by (symmetry; apply Rle_b_true; lra).
       replace (Req_b l 0) with false by (symmetry; apply Req_b_false; lra).
-      rewrite andb_false_r. f_equal; [lia|]. f_equal. lra.
+      rewrite andb_false_r. rewrite clamp1_R by (apply div_unit; lra).
+      f_equal; [lia|]. f_equal. lra.
     + assert (Hc := Rsum_firstn_nonneg (vals r) j Hr).
       assert (E1 : Rsum (firstn (S j) (vals ((ex, l) :: r))) = l + Rsum (firstn j (vals r)))
         by reflexivity.
@@ -133,12 +147,37 @@ Proof.
       cbn [Rsum fold_right]. fold (Rsum (firstn j r)). fold (Rsum (firstn (S j) r)). lra.
 Qed.
 
-(* point's loop is T2t's loop (over R, (s + l) - s = l) *)
-Lemma point_loop_T2t_loop : forall fs k s T, point_loop NumR fs k s T = T2t_loop NumR fs k s T.
+(* point's loop is T2t's loop: over R, (s + l) - s = l, and the quotient of a
+   selected segment is <= 1, so the clamp of the repaired T2t changes nothing *)
+Lemma point_loop_T2t_loop : forall cl fs k s T, nonneg (vals fs) -> s < T ->
+  point_loop NumR fs k s T = T2t_loop NumR cl fs k s T.
 Proof.
-  induction fs as [|[ex l] r IH]; intros k s T; [reflexivity|].
-  cbn [point_loop T2t_loop]. rewrite IH. simpl.
-  replace (s + l - s) with l by ring. reflexivity.
+  intros cl. induction fs as [|[ex l] r IH]; intros k s T Hnn HsT; [reflexivity|].
+  unfold vals in Hnn; cbn [map snd] in Hnn. inversion Hnn as [|? ? Hl Hr]; subst.
+  fold (vals r) in Hr.
+  cbn [point_loop T2t_loop]. simpl (add NumR _ _). simpl (leb NumR _ _).
+  destruct (Rle_b T (s + l)) eqn:E.
+  - apply Rle_b_true in E. simpl. replace (s + l - s) with l by ring.
+    destruct (Req_dec l 0) as [Z|NZ].
+    + exfalso. lra.
+    + replace (Req_b l 0) with false by (symmetry; now apply Req_b_false).
+      rewrite andb_false_r. rewrite clamp1_R; [reflexivity|]. apply div_unit; lra.
+  - apply Rle_b_false in E. apply IH; [assumption|lra].
+Qed.
+
+(* no division by zero once the accumulator is below T *)
+Lemma T2t_loop_no_zerodiv : forall cl fs k T0 T, nonneg (vals fs) -> T0 < T ->
+  T2t_loop NumR cl fs k T0 T <> ZeroDiv.
+Proof.
+  intros cl. induction fs as [|[ex l] r IH]; intros k T0 T Hnn HT; [discriminate|].
+  unfold vals in Hnn; cbn [map snd] in Hnn. inversion Hnn as [|? ? Hl Hr]; subst.
+  fold (vals r) in Hr.
+  cbn [T2t_loop]. simpl (add NumR _ _). simpl (leb NumR _ _).
+  destruct (Rle_b T (T0 + l)) eqn:E.
+  - apply Rle_b_true in E. simpl (eqb NumR _ _).
+    replace (Req_b l 0) with false by (symmetry; apply Req_b_false; lra).
+    rewrite andb_false_r. discriminate.
+  - apply Rle_b_false in E. apply IH; [assumption|lra].
 Qed.
 
 (* ---------- fractions ---------- *)
@@ -185,16 +224,9 @@ Section Fractions.
   Qed.
 End Fractions.
 
-Lemma div_unit a f : 0 < f -> 0 < a <= f -> 0 < a / f <= 1.
-Proof.
-  intros Hf Ha. pose proof (Rinv_0_lt_compat f Hf) as Hi. unfold Rdiv. split.
-  - apply Rmult_lt_0_compat; lra.
-  - replace 1 with (f * / f) by (field; lra). apply Rmult_le_compat_r; lra.
-Qed.
-
 (* ---------- theorems on a list of fractions: non-negative, summing to 1 ---------- *)
 Section OnFractions.
-  Variables (comp : bool) (fs : list (bool * R)).
+  Variables (comp cl : bool) (fs : list (bool * R)).
   Hypothesis Hfn : nonneg (vals fs).
   Hypothesis Hs : Rsum (vals fs) = 1.
 
@@ -218,20 +250,20 @@ Section OnFractions.
 
   (* the loop selects exactly the segment whose T-interval (c k, c (k+1)] contains T *)
   Lemma T2t_fr_hit fb k T : (k < length fs)%nat -> T <> 1 -> c k < T <= c (S k) ->
-    T2t_fr NumR fb fs T = Ok (Z.of_nat k, (T - c k) / f k).
+    T2t_fr NumR cl fb fs T = Ok (Z.of_nat k, (T - c k) / f k).
   Proof.
     intros Hk H1 HT. pose proof (cum_range k) as Hr.
     unfold T2t_fr. simpl (eqb NumR _ _).
     replace (Req_b T 1) with false by (symmetry; apply Req_b_false; lra).
     replace (Req_b T 0) with false by (symmetry; apply Req_b_false; lra).
     change (zero NumR) with 0.
-    rewrite (T2t_loop_hit fs k 0 0 T Hfn Hk).
+    rewrite (T2t_loop_hit cl fs k 0 0 T Hfn Hk).
     - unfold c, f. rewrite cum_R. do 2 f_equal. f_equal. lra.
     - unfold c in HT. rewrite !cum_R in HT. lra.
   Qed.
 
   Theorem T2t_fr_spec fb T : 0 < T < 1 ->
-    exists k t, T2t_fr NumR fb fs T = Ok (Z.of_nat k, t) /\ (k < length fs)%nat
+    exists k t, T2t_fr NumR cl fb fs T = Ok (Z.of_nat k, t) /\ (k < length fs)%nat
       /\ 0 < f k /\ 0 < t <= 1 /\ c k < T <= c (S k) /\ t = (T - c k) / f k.
   Proof.
     intros HT.
@@ -247,7 +279,7 @@ Section OnFractions.
   Qed.
 
   (* t2T inverts T2t *)
-  Theorem t2T_T2t_fr fb T k t : 0 < T < 1 -> T2t_fr NumR fb fs T = Ok (Z.of_nat k, t) ->
+  Theorem t2T_T2t_fr fb T k t : 0 < T < 1 -> T2t_fr NumR cl fb fs T = Ok (Z.of_nat k, t) ->
     t2T_fr NumR comp fs k t = Ok T.
   Proof.
     intros HT E. destruct (T2t_fr_spec fb T HT) as [k' [t' [E' [Hk [Hf [Ht [Hc Et]]]]]]].
@@ -277,9 +309,9 @@ Section OnFractions.
   (* T2t inverts t2T on 0 < t <= 1 of a segment of positive length *)
   Theorem T2t_t2T_fr fb k t : (k < length fs)%nat -> 0 < f k -> 0 < t <= 1 ->
     exists T, t2T_fr NumR comp fs k t = Ok T /\ 0 < T <= 1
-      /\ (T < 1 -> T2t_fr NumR fb fs T = Ok (Z.of_nat k, t))
+      /\ (T < 1 -> T2t_fr NumR cl fb fs T = Ok (Z.of_nat k, t))
       /\ (T = 1 -> t = 1 /\ c (S k) = 1
-                   /\ T2t_fr NumR fb fs T = Ok (last_idx (length fs), 1)).
+                   /\ T2t_fr NumR cl fb fs T = Ok (last_idx (length fs), 1)).
   Proof.
     intros Hk Hf Ht.
     destruct (t2T_interval_fr k t Hk) as [T [E [HT ET]]]; [lra|].
@@ -295,21 +327,45 @@ Section OnFractions.
 
 End OnFractions.
 
-  (* point selects the same segment and parameter as T2t, at every T *)
-Theorem point_fr_T2t_fr (fs : list (bool * R)) fb T kt : fs <> [] -> T2t_fr NumR fb fs T = Ok kt ->
-    point_fr NumR fb fs T = Ok kt.
-  Proof.
-    intros Hne. unfold point_fr, T2t_fr.
-    destruct fs as [|x r] eqn:Efs; [congruence|]. cbn [length Nat.eqb].
-    rewrite point_loop_T2t_loop. simpl (eqb NumR _ _). simpl (one NumR). simpl (zero NumR).
-    destruct (Req_b T 1) eqn:E1.
-    - apply Req_b_true in E1. subst T.
-      replace (Req_b 1 0) with false by (symmetry; apply Req_b_false; lra). auto.
-    - destruct (Req_b T 0) eqn:E0.
-      + apply Req_b_true in E0. subst T. auto.
-      + destruct (T2t_loop NumR (x :: r) 0 0 T); auto.
-        destruct (in01 NumR T); [|discriminate]. destruct fb; [auto|discriminate].
-  Qed.
+(* point selects the same segment and parameter as T2t, at every T >= 0
+   (for T < 0 the clamp of the repaired T2t could differ from point's raw quotient) *)
+Theorem point_fr_T2t_fr (fs : list (bool * R)) cl fb T kt : fs <> [] -> nonneg (vals fs) -> 0 <= T ->
+  T2t_fr NumR cl fb fs T = Ok kt -> point_fr NumR fb fs T = Ok kt.
+Proof.
+  intros Hne Hnn HT. unfold point_fr, T2t_fr.
+  destruct fs as [|x r] eqn:Efs; [congruence|]. cbn [length Nat.eqb].
+  simpl (eqb NumR _ _). simpl (one NumR). simpl (zero NumR).
+  destruct (Req_b T 1) eqn:E1.
+  - apply Req_b_true in E1. subst T.
+    replace (Req_b 1 0) with false by (symmetry; apply Req_b_false; lra). auto.
+  - destruct (Req_b T 0) eqn:E0.
+    + apply Req_b_true in E0. subst T. auto.
+    + apply Req_b_false in E0.
+      rewrite (point_loop_T2t_loop cl (x :: r) 0 0 T Hnn) by lra.
+      destruct (T2t_loop NumR cl (x :: r) 0 0 T); auto.
+      destruct (in01 NumR T); [|discriminate]. destruct fb; [auto|discriminate].
+Qed.
+
+(* the repaired code is total on [0,1] over R for ANY non-negative lengths
+   (no BugException, no ZeroDivisionError), also when the total length is 0 *)
+Theorem T2t_fr_total_R (fs : list (bool * R)) cl T : nonneg (vals fs) -> 0 <= T <= 1 ->
+  exists kt, T2t_fr NumR cl true fs T = Ok kt.
+Proof.
+  intros Hnn HT. unfold T2t_fr. simpl (eqb NumR _ _). simpl (zero NumR).
+  destruct (Req_b T 1); [eauto|]. destruct (Req_b T 0) eqn:E0; [eauto|].
+  apply Req_b_false in E0.
+  pose proof (T2t_loop_no_zerodiv cl fs 0%Z 0 T Hnn ltac:(lra)) as NZ.
+  destruct (T2t_loop NumR cl fs 0 0 T); [eauto|congruence|].
+  unfold in01. simpl.
+  replace (Rle_b 0 T) with true by (symmetry; apply Rle_b_true; lra).
+  replace (Rle_b T 1) with true by (symmetry; apply Rle_b_true; lra). simpl. eauto.
+Qed.
+Theorem point_fr_total_R (fs : list (bool * R)) T : fs <> [] -> nonneg (vals fs) -> 0 <= T <= 1 ->
+  exists kt, point_fr NumR true fs T = Ok kt.
+Proof.
+  intros Hne Hnn HT. destruct (T2t_fr_total_R fs false T Hnn HT) as [kt E].
+  exists kt. apply (point_fr_T2t_fr fs false true T kt Hne Hnn); [lra|exact E].
+Qed.
 
 Lemma nth_error_last {A} (l : list A) d : l <> [] -> nth_error l (length l - 1) = Some (last l d).
 Proof.
@@ -319,8 +375,39 @@ Proof.
 Qed.
 
 (* ---------- theorems on the path's segment lengths ---------- *)
+Lemma fractions_nonneg_any comp tl : nonneg (vals tl) -> nonneg (vals (fractions NumR comp tl)).
+Proof.
+  intros Hnn. destruct (Req_dec (total NumR comp tl) 0) as [Z|NZ].
+  - unfold fractions. simpl (eqb NumR _ _).
+    replace (Req_b (total NumR comp tl) 0) with true by (symmetry; now apply Req_b_true).
+    exact Hnn.
+  - apply fractions_nonneg; [exact Hnn|].
+    pose proof (Rsum_nonneg (vals tl) Hnn). rewrite total_R in *. lra.
+Qed.
+
+(* for every list of non-negative lengths (total 0 included) and every T >= 0 *)
+Theorem point_search_T2t comp cl tl fb T kt : tl <> [] -> nonneg (vals tl) -> 0 <= T ->
+  T2t NumR comp cl fb tl T = Ok kt -> point_search NumR comp fb tl T = Ok kt.
+Proof.
+  intros Hne Hnn HT E.
+  assert (Hfs : fractions NumR comp tl <> []).
+  { intros E0. apply Hne. apply length_zero_iff_nil.
+    rewrite <- (fractions_length comp tl), E0. reflexivity. }
+  apply (point_fr_T2t_fr _ cl fb T kt Hfs (fractions_nonneg_any comp tl Hnn) HT E).
+Qed.
+Theorem T2t_total_R comp cl tl T : nonneg (vals tl) -> 0 <= T <= 1 ->
+  exists kt, T2t NumR comp cl true tl T = Ok kt.
+Proof. intros Hnn HT. apply T2t_fr_total_R; [now apply fractions_nonneg_any|exact HT]. Qed.
+Theorem point_search_total_R comp tl T : tl <> [] -> nonneg (vals tl) -> 0 <= T <= 1 ->
+  exists kt, point_search NumR comp true tl T = Ok kt.
+Proof.
+  intros Hne Hnn HT. apply point_fr_total_R; [|now apply fractions_nonneg_any|exact HT].
+  intros E0. apply Hne. apply length_zero_iff_nil.
+  rewrite <- (fractions_length comp tl), E0. reflexivity.
+Qed.
+
 Section OnLengths.
-  Variables (comp : bool) (tl : list (bool * R)).
+  Variables (comp cl : bool) (tl : list (bool * R)).
   Hypothesis Hnn : nonneg (vals tl).
   Hypothesis Htot : 0 < total NumR comp tl.
 
@@ -330,12 +417,12 @@ Section OnLengths.
   Let Hlen : length fs = length tl := fractions_length comp tl.
 
   Theorem T2t_spec fb T : 0 < T < 1 ->
-    exists k t, T2t NumR comp fb tl T = Ok (Z.of_nat k, t) /\ (k < length tl)%nat
+    exists k t, T2t NumR comp cl fb tl T = Ok (Z.of_nat k, t) /\ (k < length tl)%nat
       /\ 0 < nth k (vals tl) 0 /\ 0 < t <= 1
       /\ cum NumR comp fs k < T <= cum NumR comp fs (S k)
       /\ t = (T - cum NumR comp fs k) / nth k (vals fs) 0.
   Proof.
-    intros HT. destruct (T2t_fr_spec comp fs Hfn Hs fb T HT) as [k [t [E [Hk [Hf [Ht [Hc Et]]]]]]].
+    intros HT. destruct (T2t_fr_spec comp cl fs Hfn Hs fb T HT) as [k [t [E [Hk [Hf [Ht [Hc Et]]]]]]].
     exists k, t. repeat split; try assumption; try lra; try lia.
     unfold fs in Hf. rewrite (fractions_nth comp tl Htot) in Hf.
     assert (Hl := nonneg_nth (vals tl) k Hnn).
@@ -343,18 +430,18 @@ Section OnLengths.
     rewrite Z in Hf. unfold Rdiv in Hf. lra.
   Qed.
 
-  Theorem t2T_T2t fb T k t : 0 < T < 1 -> T2t NumR comp fb tl T = Ok (Z.of_nat k, t) ->
+  Theorem t2T_T2t fb T k t : 0 < T < 1 -> T2t NumR comp cl fb tl T = Ok (Z.of_nat k, t) ->
     t2T NumR comp tl k t = Ok T.
-  Proof. exact (t2T_T2t_fr comp fs Hfn Hs fb T k t). Qed.
+  Proof. exact (t2T_T2t_fr comp cl fs Hfn Hs fb T k t). Qed.
 
   Theorem T2t_t2T fb k t : (k < length tl)%nat -> 0 < nth k (vals tl) 0 -> 0 < t <= 1 ->
     exists T, t2T NumR comp tl k t = Ok T /\ 0 < T <= 1
-      /\ (T < 1 -> T2t NumR comp fb tl T = Ok (Z.of_nat k, t))
+      /\ (T < 1 -> T2t NumR comp cl fb tl T = Ok (Z.of_nat k, t))
       /\ (T = 1 -> t = 1 /\ cum NumR comp fs (S k) = 1
-                   /\ T2t NumR comp fb tl T = Ok (last_idx (length tl), 1)).
+                   /\ T2t NumR comp cl fb tl T = Ok (last_idx (length tl), 1)).
   Proof.
     intros Hk Hl Ht. rewrite <- Hlen in *.
-    apply (T2t_t2T_fr comp fs Hfn Hs fb k t Hk); [|exact Ht].
+    apply (T2t_t2T_fr comp cl fs Hfn Hs fb k t Hk); [|exact Ht].
     unfold fs. rewrite (fractions_nth comp tl Htot). now apply Rdiv_lt_0_compat.
   Qed.
 
@@ -369,17 +456,8 @@ Section OnLengths.
     exists T. repeat split; try assumption; try lra; apply (fractions_cum comp tl Htot).
   Qed.
 
-  Theorem point_search_T2t fb T kt : tl <> [] -> T2t NumR comp fb tl T = Ok kt ->
-    point_search NumR comp fb tl T = Ok kt.
-  Proof.
-    intros Hne E.
-    assert (Hfs : fs <> []).
-    { intros E0. apply Hne. apply length_zero_iff_nil. rewrite <- Hlen, E0. reflexivity. }
-    apply point_fr_T2t_fr; [exact Hfs|exact E].
-  Qed.
-
-  Theorem T2t_ends fb : T2t NumR comp fb tl 0 = Ok (0%Z, 0)
-                        /\ T2t NumR comp fb tl 1 = Ok (last_idx (length tl), 1).
+  Theorem T2t_ends fb : T2t NumR comp cl fb tl 0 = Ok (0%Z, 0)
+                        /\ T2t NumR comp cl fb tl 1 = Ok (last_idx (length tl), 1).
   Proof.
     unfold T2t, T2t_fr. fold fs. rewrite Hlen. simpl (eqb NumR _ _).
     replace (Req_b 0 1) with false by (symmetry; apply Req_b_false; lra).
@@ -390,13 +468,14 @@ Section OnLengths.
   (* Path.point(T) is the point of segment k at t, (k,t) = T2t(T); point(0), point(1) *)
   Theorem path_point_coherent {S P : Type} (spoint : S -> R -> P) (segs : list S) fb T :
     length segs = length tl -> 0 < T < 1 ->
-    exists k t s, T2t NumR comp fb tl T = Ok (Z.of_nat k, t) /\ nth_error segs k = Some s
+    exists k t s, T2t NumR comp cl fb tl T = Ok (Z.of_nat k, t) /\ nth_error segs k = Some s
       /\ path_point NumR spoint comp fb segs tl T = Ok (spoint s t).
   Proof.
     intros Hl HT. destruct (T2t_spec fb T HT) as [k [t [E [Hk _]]]].
     destruct (nth_error segs k) as [s|] eqn:En; [|apply nth_error_None in En; lia].
     exists k, t, s. repeat split; try assumption.
-    unfold path_point. rewrite (point_search_T2t fb T (Z.of_nat k, t)); [|destruct tl; simpl in *; [lia|congruence]|exact E].
+    unfold path_point.
+    rewrite (point_search_T2t comp cl tl fb T (Z.of_nat k, t)); [|destruct tl; simpl in *; [lia|congruence]|exact Hnn|lra|exact E].
     rewrite Nat2Z.id, En. reflexivity.
   Qed.
 
@@ -408,7 +487,8 @@ Section OnLengths.
     intros Hl. assert (Hne : tl <> []) by (destruct tl; simpl in *; [lia|congruence]).
     destruct (T2t_ends fb) as [E0 E1].
     unfold path_point.
-    rewrite (point_search_T2t fb 0 _ Hne E0), (point_search_T2t fb 1 _ Hne E1).
+    rewrite (point_search_T2t comp cl tl fb 0 _ Hne Hnn ltac:(lra) E0),
+            (point_search_T2t comp cl tl fb 1 _ Hne Hnn ltac:(lra) E1).
     split; [reflexivity|].
     unfold last_idx. rewrite <- Hl.
     replace (Z.to_nat (Z.of_nat (length (s0 :: segs)) - 1)) with (length (s0 :: segs) - 1)%nat by lia.
